@@ -23,6 +23,15 @@ for _p in []:
   NOT_APPLICABLE.setdefault(_p, 'planned (DESIGN.md section 4) but no check is registered yet in this commit; not claimed until its obligations are discharged on the unchanged tree')
 
 CHECKS = {
+  'C02': dict(
+    engine='vx',
+    technique='Verus contracts on the real box / capture op handlers and op_closure over a ghost heap of box cells (the VM half of the capture protocol only)',
+    design_ref='DESIGN.md §10.8',
+    level_text=('Partial scope, unbounded proof on the extracted real handlers: op_box replaces a frame slot by a FRESH box cell holding the old value, op_empty_box / op_fill_box create and initialise a fresh cell; op_get_box / op_set_box and op_get_capture / op_set_capture read and write the cell (not a copy); '
+                'op_closure builds a closure whose j-th capture IS the same cell as the enclosing frame slot (Local operand) or the enclosing closure capture (Enclosing operand) — so the declaring scope and every closure made from it observe each other\'s writes, and two executions of a declaration (two op_box / op_empty_box) give two distinct cells. '
+                'What is NOT decided is the larger half of the property: the resolver marking variables as captured, the compiler choosing operands and placing Box / EmptyBox per iteration, and name resolution.'),
+    level_note=('Trusted: the ghost box heap and frame-base model of the ops prelude (A-fiber), A-enc (operand decode), A-shape preconditions. The claim is deliberately limited to the handlers listed; resolver.rs and Compiler are outside reach of both tools.'),
+  ),
   'C05': dict(
     engine='vx',
     technique='Verus contracts GENERATED from the real struct definitions on the real trace bodies (ghost trace log threaded through, R15), hand-written contracts on the mark-guarded handles and the kind dispatch; Kani bounded function-contract harnesses on the real dispatch and the real Allocator sweep',
